@@ -28,7 +28,8 @@ def scan_function(f):
                         break
                 if k == 'VarDecl' and PTR_KEY.search(t):
                     yield ('pointer-keyed-container', pos(n), t[:80])
-            if k == 'VarDecl' and n.get('storageClass') == 'static' and 'const' not in qt(n).split('*')[-1]:
+            if k == 'VarDecl' and n.get('storageClass') == 'static' and not n.get('constexpr') and not qt(n).startswith('const ') and \
+                    'const' not in qt(n).split('*')[-1]:
                 yield ('function-static', pos(n), n.get('name', ''))
             if k in ('CallExpr', 'CXXMemberCallExpr'):
                 kind, name, did, obj = callee_of(n)
